@@ -181,6 +181,11 @@ impl Scenario for Pairs {
                 }
                 let x = Res::of(&session_kb.add_byte(*b));
                 env.cov.api_calls += 1;
+                // the documented loop: the event goes on to the same object's event stage
+                if let Res::Ev(k, st) = x {
+                    let _ = session_kb.process_keyevent(pc_keyboard::KeyEvent::new(k, st));
+                    env.cov.api_calls += 1;
+                }
                 if j + 1 < bytes.len() {
                     if x != Res::Pending {
                         kb_prefix_ok = false;
